@@ -132,6 +132,16 @@ def r2(ctx):
             # folded value derives from the tick result
             ok2 = any("call:turmoil::world::World::enter" in Slicer(ctx.w).atoms(b, s["r"].get("o", {})) or
                       any(a.startswith("call:turmoil::world::World::enter") for a in Slicer(ctx.w).atoms(b, {"c": {"l": fin}})) for bb, s in wr)
+            if not ok2:
+                # control dependence: `if client && !finished { is_finished = false }`
+                for bb, s in wr:
+                    c = op_const(s["r"].get("o")) if s["r"]["k"] == "use" else None
+                    if c is None or c.get("v") != 0:
+                        continue
+                    for sbb, t_ in switch_blocks(b):
+                        if any(b.dominated_by_edge(bb, (sbb, x)) for x in b.succ(sbb)) and \
+                                "call:turmoil::world::World::enter" in Slicer(ctx.w).atoms(b, t_["d"]):
+                            ok2 = True
             ctx.inst(R, "step:is_finished-source", ok2, b.span, "completion derives from Rt::tick's result" if ok2 else "completion flag does not derive from Rt::tick's result")
         # duration error
         aa = [bb for bb, t in b.calls(re.compile(r"Duration as std::ops::AddAssign>::add_assign$")) if "field:turmoil::sim::Sim::elapsed" in Slicer(ctx.w).atoms(b, t["args"][0])]
@@ -194,14 +204,12 @@ def r3(ctx):
                         okp = True
         ctx.inst(R, "step:partition-predicate", okp, parts[0][1]["s"] if parts else b.span, "running / stopped split by Rt::is_software_running" if okp else
                  "hosts are not split by Rt::is_software_running (component 0 = running)")
-        from .C05 import _loops
-        for ib, nb, some, at, t in _loops(ctx, b):
-            body_blocks = b.reachable(some[1], stop=[nb]) if some else set()
-            ticks = [x for x, tt in b.calls("turmoil::world::World::enter") if x in body_blocks and any(may_call(ctx.w, [c], "turmoil::rt::Rt::tick") for c in closure_args(b, tt))]
-            ticks += [x for x, tt in b.calls(re.compile(r"Rt::tick$|Runtime::block_on$")) if x in body_blocks]
-            # component
-            from .C05 import loop_component
-            comp = loop_component(b, t, parts[0][1]["d"]["l"]) if parts else None
+        from .C05 import visits
+        for v in (visits(ctx, b, parts[0][1]["d"]["l"]) if parts else []):
+            t = {"s": v.site}
+            ticks = [x for fb, x, tt in v.calls("turmoil::world::World::enter") if any(may_call(ctx.w, [c], "turmoil::rt::Rt::tick") for c in closure_args(fb, tt))]
+            ticks += [x for fb, x, tt in v.calls(re.compile(r"Rt::tick$|Runtime::block_on$"))]
+            comp = v.comp
             comp0, comp1 = comp == 0, comp == 1
             if comp1:
                 ctx.inst(R, "step:stopped-never-polled", not ticks, t["s"], "stopped (finished / crashed) hosts are only clock-ticked, never polled" if not ticks else
